@@ -322,7 +322,9 @@ pub fn run(input: &Value) -> Option<Value> {
     // who else holds the flag: 0 = the embedder keeps its handle for the whole run, 1 = the flag is handed over (the
     // runtime holds the only handle; a command raises it through context.env.halt), 2 = no flag given (the environment creates its own)
     let env_mode = if prehalt { 0 } else { input["env_mode"].as_u64().unwrap_or(0) };
-    let env = match env_mode { 0 => Some(Env::new(None, None, Some(halt.clone()))), 1 => Some(Env::new(None, None, Some(Arc::new(AtomicBool::new(false))))), _ => Some(Env::new(Some(Box::new(std::io::sink())), Some(Box::new(std::io::sink())), None)) };
+    let env = match env_mode { 0 => Some(Env::new(None, None, Some(halt.clone()))), 1 => Some(Env::new(None, None, Some(Arc::new(AtomicBool::new(false))))), 2 => Some(Env::new(Some(Box::new(std::io::sink())), Some(Box::new(std::io::sink())), None)),
+        // an embedder whose output writer is broken (writes and flushes fail): a halted run still returns its context
+        _ => Some(Env::new(Some(Box::new(Broken {})), Some(Box::new(Broken {})), None)) };
     let res = if input["as_file"].as_bool().unwrap_or(false) {
         // the same script given as a file: same invocations, same outcome, same failing line
         let p = file_path.clone();
